@@ -9,6 +9,10 @@ import Driver.Proto
 import Driver.Shuffle
 import Driver.Repartition
 import Driver.Pred
+import Driver.Cache
+import Driver.Names
+import Driver.Fusion
+import Driver.Cols
 open Dx Dx.Proto
 
 namespace Dx.Drv
@@ -33,6 +37,10 @@ def handlers : List (List String → Option String) :=
   , Dx.Drv.Shuffle.handle
   , Dx.Drv.Repartition.handle
   , Dx.Drv.Pred.handle
+  , Dx.Drv.Cache.handle
+  , Dx.Drv.Names.handle
+  , Dx.Drv.Fusion.handle
+  , Dx.Drv.Cols.handle
   ]
 
 def handle (line : String) : String :=
